@@ -12,11 +12,13 @@
                                                                      elements_born_in_place
    (mechanism) free-list reuse never hands out a live item       -> live_slots_distinct,
                                                                      free_list_reuse_never_hands_out_live_slot
-   (mechanism) item blocks are only released by the destructor   -> blocks_released_only_by_destructor
+   (mechanism) item blocks are only released by the destructor   -> blocks_released_only_by_destructor,
+                                                                     blocks_kept_until_destructor,
+                                                                     live_elements_in_owned_blocks
    the model meets the reference checker the harness
    observations are judged with                                   -> model_satisfies_spec *)
 From Coq Require Import ZArith List Bool Arith.
-From Stable Require Import Gen_Stable StableSpec StableModel StableTree StableInv StableProofs StableTheorems StableRefine.
+From Stable Require Import Gen_Stable StableSpec StableModel StableTree StableInv StableProofs StableTheorems StableRefine StableBlocks.
 Import ListNotations.
 Local Open Scope Z_scope.
 
@@ -74,6 +76,20 @@ Theorem blocks_released_only_by_destructor : forall k cap ops o st' ev,
   step k cap (run k cap (init k cap) ops) o = (st', ev) -> o <> ODestroy -> Forall not_free ev.
 Proof. exact (fun k cap ops o st' ev => no_free_outside_destroy k cap _ o st' ev (reachable_inv k cap ops)). Qed.
 Print Assumptions blocks_released_only_by_destructor.
+
+Theorem live_elements_in_owned_blocks : forall k cap ops n,
+  let st := run k cap (init k cap) ops in
+  (In n (elems (s_a st)) -> In (fst (n_slot n)) (blocks (s_a st)) /\ ~ In (fst (n_slot n)) (blocks (s_b st))) /\
+  (In n (elems (s_b st)) -> In (fst (n_slot n)) (blocks (s_b st)) /\ ~ In (fst (n_slot n)) (blocks (s_a st))).
+Proof. exact live_in_owned_block_all. Qed.
+Print Assumptions live_elements_in_owned_blocks.
+
+Theorem blocks_kept_until_destructor : forall k cap ops o st' ev,
+  let st := run k cap (init k cap) ops in
+  step k cap st o = (st', ev) -> keeps_blocks o = true ->
+  incl (blocks (s_a st)) (blocks (s_a st')) /\ incl (blocks (s_b st)) (blocks (s_b st')).
+Proof. exact blocks_kept_all. Qed.
+Print Assumptions blocks_kept_until_destructor.
 
 Theorem model_satisfies_spec : forall k cap ops,
   check_trace k ss_init (trace k cap (init k cap) ops) 0 = None.
@@ -144,3 +160,8 @@ Example spec_rejects_a_pool_copy :
   check_step KPoolList seen2 (OApp 0 5) (mkObs [mkNode 0 (0, 3)%nat 1 10; mkNode 1 (0, 2)%nat 2 20; mkNode 2 (0, 1)%nat 0 5] [])
              [ECopy 2 (0, 1)%nat] = false.
 Proof. reflexivity. Qed.
+
+Example blocks_nonvacuous :
+  let st := run KMap 0 (init KMap 0) [OApp 1 1; OApp 2 2; OApp 3 3; OApp 4 4; OApp 5 5; OApp 6 6; OApp 7 7; OApp 8 8; OApp 9 9; ORemKey 3; OClear; OApp 1 1] in
+  (2 <=? length (blocks (s_a st)))%nat = true /\ length (elems (s_a st)) = 1%nat.
+Proof. vm_compute. auto. Qed.
